@@ -133,7 +133,7 @@ class AFMWriter(ModelToText):
         elif not node.left and node.right:
             result = data + self.recursive_constraint_read(node.right)
         elif node.left and not node.right:
-            result = self.recursive_constraint_read(node.left) + node.data
+            result = data + self.recursive_constraint_read(node.left)
         else:
             result = " " + data + " "
 
